@@ -67,6 +67,34 @@ impl Tok {
             Tok::Other(_) => "other",
         }
     }
+    /// The scalar leaves of the tree, in order (as exact bit patterns widened to u64, tagged by kind).
+    pub fn leaves(&self, out: &mut Vec<(u8, u64)>) {
+        match self {
+            Tok::Struct { fields, .. } => fields.iter().for_each(|(_, t)| t.leaves(out)),
+            Tok::TupleStruct { fields, .. } => fields.iter().for_each(|t| t.leaves(out)),
+            Tok::Newtype { inner, .. } | Tok::Some(inner) => inner.leaves(out),
+            Tok::Seq { items, .. } | Tok::Tuple { items, .. } => items.iter().for_each(|t| t.leaves(out)),
+            Tok::Map { entries, .. } => entries.iter().for_each(|(_, v)| v.leaves(out)),
+            Tok::F32(b) => out.push((1, *b as u64)),
+            Tok::F64(b) => out.push((2, *b)),
+            Tok::U8(v) => out.push((3, *v as u64)),
+            Tok::U16(v) => out.push((3, *v as u64)),
+            Tok::U32(v) => out.push((3, *v as u64)),
+            Tok::U64(v) => out.push((3, *v)),
+            Tok::I64(v) => out.push((4, *v as u64)),
+            _ => {}
+        }
+    }
+    /// (declared length, elements sent) of the outermost container, where it declares one.
+    pub fn declared_vs_sent(&self) -> Option<(usize, usize)> {
+        match self {
+            Tok::Struct { declared_len, fields, .. } => Some((*declared_len, fields.len())),
+            Tok::TupleStruct { declared_len, fields, .. } => Some((*declared_len, fields.len())),
+            Tok::Tuple { declared_len, items } => Some((*declared_len, items.len())),
+            Tok::Seq { declared_len: Some(d), items } => Some((*d, items.len())),
+            _ => None,
+        }
+    }
     pub fn is_scalar(&self) -> bool {
         matches!(self, Tok::F32(_) | Tok::F64(_) | Tok::U8(_) | Tok::U16(_) | Tok::U32(_) | Tok::U64(_) | Tok::I64(_))
     }
@@ -398,6 +426,18 @@ pub struct Presentation {
     /// false = like JSON (any non-null value is `Some`), true = like RON (`ExpectedOption`)
     #[serde(default)]
     pub strict_option: bool,
+    /// which foreign key `unknown_key_at` inserts: 0 `"comment"` with a string value (the only one that existed
+    /// at first); 1.. near-misses of `alpha` with a NUMBER as value, which an adapter that compares keys sloppily
+    /// would take for the alpha: `"Alpha"`, `"alph"`, `"alpha_"`, `"alphabet"`, `"ALPHA"`; under index keys the
+    /// foreign key is the index one past alpha's
+    #[serde(default)]
+    pub unknown_key_kind: u8,
+    /// the peer hands tuple-like values out as a sequence of exactly the length the visitor's side ASKED for
+    /// (`deserialize_tuple(len)`, `deserialize_tuple_struct(_, len)`), as length-prefixed formats do. palette
+    /// asks for the color's length + 1 there on purpose, so this is a presentation the unchanged tree supports
+    /// (unlike `limit_to_declared_fields`, where it cannot).
+    #[serde(default)]
+    pub honour_requested_len: bool,
     /// NOT a presentation the check judges (DESIGN §4.4): a bincode-style peer that hands a struct out as a
     /// sequence of exactly `fields.len()` elements. Used only for the "observed, not judged" note in the evidence.
     #[serde(default)]
@@ -406,9 +446,13 @@ pub struct Presentation {
 
 impl Presentation {
     pub fn plain() -> Self {
-        Presentation { struct_as: StructAs::Map, key_form: KeyForm::BorrowedStr, alpha_pos: 255, order: 0, size_hint: true, alpha_present: true, unknown_key_at: None, strict_option: false, limit_to_declared_fields: false }
+        Presentation { struct_as: StructAs::Map, key_form: KeyForm::BorrowedStr, alpha_pos: 255, order: 0, size_hint: true, alpha_present: true, unknown_key_at: None, strict_option: false, unknown_key_kind: 0, honour_requested_len: false, limit_to_declared_fields: false }
     }
 }
+
+pub const FOREIGN_KEYS: [&str; 6] = ["comment", "Alpha", "alph", "alpha_", "alphabet", "ALPHA"];
+/// the value that travels under a near-miss key (it must never become the alpha)
+pub static FOREIGN_NUMBER: Tok = Tok::F64(0x3FC0_0000_0000_0000); // 0.125
 
 // ------------------------------------------------------------------ replaying deserializer
 
@@ -481,6 +525,24 @@ impl<'de, 'p> Replay<'de, 'p> {
         Ok(out)
     }
 
+    /// `present_seq`, or — under `honour_requested_len` — exactly `len` elements of the document: what the
+    /// document holds beyond the requested length is never shown (and a shorter document ends early).
+    fn present_seq_limited<V: Visitor<'de>>(&self, visitor: V, len: usize) -> Result<V::Value, SimError> {
+        if !(self.top && self.pres.honour_requested_len) || !matches!(self.tok, Tok::TupleStruct { .. } | Tok::Tuple { .. } | Tok::Newtype { .. } | Tok::UnitStruct { .. } | Tok::Unit) {
+            return self.present_seq(visitor);
+        }
+        let mut items = self.items()?;
+        if !self.pres.alpha_present {
+            if let Some(n) = alpha_index(self.tok) {
+                items.remove(n);
+            }
+        }
+        items.truncate(len);
+        let consumed = Cell::new(0usize);
+        // a length-prefixed format does not complain about elements the visitor leaves: it never had more
+        visitor.visit_seq(SeqReplay { items, pos: &consumed, parent: self, hint: true })
+    }
+
     fn present_map<V: Visitor<'de>>(&self, fields: &'static [&'static str], visitor: V) -> Result<V::Value, SimError> {
         let (entries, _) = self.entries()?;
         // split off alpha (the adapters' extra field is the one named "alpha" that the color itself does not declare)
@@ -509,10 +571,17 @@ impl<'de, 'p> Replay<'de, 'p> {
             }
         }
         let string_keys = !matches!(self.pres.key_form, KeyForm::U64Index | KeyForm::U8Index | KeyForm::U32Index);
-        if self.top && string_keys {
+        if self.top {
             if let Some(at) = self.pres.unknown_key_at {
                 let pos = at as usize % (keyed.len() + 1);
-                keyed.insert(pos, Entry { name: "comment", index: usize::MAX, value: None });
+                let kind = self.pres.unknown_key_kind as usize % FOREIGN_KEYS.len();
+                if string_keys {
+                    let value = if kind == 0 { None } else { Some(&FOREIGN_NUMBER) };
+                    keyed.insert(pos, Entry { name: FOREIGN_KEYS[kind], index: usize::MAX, value });
+                } else if kind != 0 && !fields.is_empty() {
+                    // index keys: one past the index alpha travels under
+                    keyed.insert(pos, Entry { name: "<index one past alpha>", index: fields.len() + 1, value: Some(&FOREIGN_NUMBER) });
+                }
             }
         }
         let hint = self.top && self.pres.size_hint || !self.top;
@@ -617,14 +686,14 @@ impl<'de, 'p> Deserializer<'de> for Replay<'de, 'p> {
         self.peer.call()?;
         self.present_seq(visitor)
     }
-    fn deserialize_tuple<V: Visitor<'de>>(self, _len: usize, visitor: V) -> Result<V::Value, SimError> {
+    fn deserialize_tuple<V: Visitor<'de>>(self, len: usize, visitor: V) -> Result<V::Value, SimError> {
         self.peer.call()?;
-        // not length-limited: the peer is self-describing and presents what the document holds
-        self.present_seq(visitor)
+        // by default not length-limited: the peer is self-describing and presents what the document holds
+        self.present_seq_limited(visitor, len)
     }
-    fn deserialize_tuple_struct<V: Visitor<'de>>(self, _name: &'static str, _len: usize, visitor: V) -> Result<V::Value, SimError> {
+    fn deserialize_tuple_struct<V: Visitor<'de>>(self, _name: &'static str, len: usize, visitor: V) -> Result<V::Value, SimError> {
         self.peer.call()?;
-        self.present_seq(visitor)
+        self.present_seq_limited(visitor, len)
     }
     fn deserialize_map<V: Visitor<'de>>(self, visitor: V) -> Result<V::Value, SimError> {
         self.peer.call()?;
